@@ -29,6 +29,7 @@ NUMS = [0, 1, 1.0, 2]
 KINDS = {
     "list": NUMS, "vector": NUMS, "bytes": [0, 1, 2, 255], "string": ["a", "b", "é", " "],
     "wstream": NUMS, "range": None, "set": [0, 1, 2, 5],
+    "srange": None,      # a stepped range whose end is off the step grid: 1, 3, 5, ... written `1 til 2n+1 by 2`
 }
 SAMEKIND = ("list", "vector", "bytes", "string")
 
@@ -52,6 +53,8 @@ def src_of(kind, xs):
         return "stream([%s])" % ", ".join(fnum(x) for x in xs)
     if kind == "range":
         return "(1 to %d)" % len(xs)
+    if kind == "srange":
+        return "(1 til %d by 2)" % (2 * len(xs) + 1)
     if kind == "set":
         return "set([%s])" % ", ".join(fnum(x) for x in xs)
     raise KeyError(kind)
@@ -217,7 +220,7 @@ def forms(kind, xs, S):
             dw = list(itertools.dropwhile(pf, xs))
             add("take", "%s take %s" % (S, ps), E(Seq(K, tw)))
             # on a stream, drop(pred) may stay a stream: only its elements are specified
-            add("drop", "%s drop %s" % (S, ps), ("elems", [conv(x) for x in dw]) if kind in ("range", "wstream") else E(Seq(K, dw)))
+            add("drop", "%s drop %s" % (S, ps), ("elems", [conv(x) for x in dw]) if kind in ("range", "wstream", "srange") else E(Seq(K, dw)))
     if num:
         add("count", "count(%s)" % S, E(sum(1 for x in xs if x != 0)))
         add("any", "any(%s)" % S, E(int(any(x != 0 for x in xs))))
@@ -390,6 +393,10 @@ def sequences(kind, maxlen):
     if kind == "range":
         for n in range(0, maxlen + 1):
             yield list(range(1, n + 1))
+        return
+    if kind == "srange":
+        for n in range(0, maxlen + 1):
+            yield list(range(1, 2 * n, 2))
         return
     alpha = KINDS[kind]
     if kind == "set":
